@@ -218,7 +218,9 @@ def space_C(tier):
         if t.startswith("value_"):
             conds = [dict(c, field="bytes") for c in conds] + [{"gt": 1, "field": ["a", "b"]}]
         if t == "value_percentile":
-            conds = [dict(c, percentile=95) for c in conds]
+            conds = [dict(c, percentile=95) for c in conds] + [dict(conds[0], percentile=0), dict(conds[0], percentile=100)]
+        if t == "event_count":
+            conds = conds + [{"gte": 0}]
         if t in ("temporal", "temporal_ordered"):
             conds = conds + [None, "rule1 and rule2", "rule1 and not rule2", "rule1 or (rule2 and not rule1)"]
         for cond in conds:
